@@ -68,7 +68,7 @@ func expectDelete(r *Rec, g0 *d2graph.Graph, pre *PBoard) (x *expectation, kind 
 		if !ok {
 			return nil, ""
 		}
-		x = newExpectation(pre)
+		x = newExpectation(r, pre)
 		x.ordered = true
 		x.removeEdgesWhere(func(e *PEdge) bool { return e.Abs == abs })
 		return x, "connection"
@@ -77,7 +77,7 @@ func expectDelete(r *Rec, g0 *d2graph.Graph, pre *PBoard) (x *expectation, kind 
 	if !ok {
 		return nil, ""
 	}
-	x = newExpectation(pre)
+	x = newExpectation(r, pre)
 	X := x.by[abs]
 	if X == nil {
 		return nil, ""
